@@ -122,6 +122,10 @@ def rand_doc(rng, T, i):
             parts.append('<rect xy="#%s|%s %d" wh="3" class="d-grid-%d d-grid-%d"/>' % (rng.choice(ids), rng.choice('hHvV'), rng.range(0, 3), rng.range(0, 50), rng.range(51, 100)))
     if rng.chance(0.25):
         rng.shuffle(parts)
+    if rng.chance(0.1):
+        # local styles switched on and off again inside the document: the result must not keep anything of the clock-seeded id
+        a = rng.below(len(parts) + 1); parts.insert(a, '<config use-local-styles="true"/>')
+        parts.insert(rng.range(a + 1, len(parts)), '<config use-local-styles="false"/>'); feats.add('local-styles-toggled')
     xml = '<svg>\n  %s\n</svg>' % '\n  '.join(parts)
     return xml, cfg, sorted(feats)
 
